@@ -220,6 +220,89 @@ func factsC05(r *Repo) []Fact {
 		out = append(out, boolFact("foldWithoutGet", fold && !get, hw+": resolveCompletedTasks + updateValues + updateDependencies, no get"))
 	}
 
+	// --- stream <-> value conversion of checkpointed data: the pairs registered for START's output and END's
+	// input in graph.compile must be the generic helper's (promoted) fields, not never-assigned runner fields ---
+	{
+		comp, compFile := cp.Func("graph", "compile")
+		cw := "compose/" + compFile + ": graph.compile"
+		structFields := func(name string) map[string]bool {
+			out := map[string]bool{}
+			for _, fn := range cp.Names {
+				for _, d := range cp.Files[fn].Decls {
+					gd, ok := d.(*ast.GenDecl)
+					if !ok {
+						continue
+					}
+					for _, sp := range gd.Specs {
+						ts, ok := sp.(*ast.TypeSpec)
+						if !ok || ts.Name.Name != name {
+							continue
+						}
+						if st, ok := ts.Type.(*ast.StructType); ok {
+							for _, f := range st.Fields.List {
+								for _, n := range f.Names {
+									out[n.Name] = true
+								}
+							}
+						}
+					}
+				}
+			}
+			return out
+		}
+		runnerFields, ghFields := structFields("runner"), structFields("genericHelper")
+		assignedRunnerField := func(name string) bool { // is r.<name> / a literal field <name> ever assigned in the package?
+			found := false
+			for _, fn := range cp.Names {
+				ast.Inspect(cp.Files[fn], func(n ast.Node) bool {
+					switch v := n.(type) {
+					case *ast.AssignStmt:
+						for _, l := range v.Lhs {
+							if se, ok := l.(*ast.SelectorExpr); ok && se.Sel.Name == name {
+								found = true
+							}
+						}
+					case *ast.KeyValueExpr:
+						if id, ok := v.Key.(*ast.Ident); ok && id.Name == name {
+							found = true
+						}
+					}
+					return true
+				})
+			}
+			return found
+		}
+		if comp == nil {
+			out = append(out, unknownFact("checkpointStartEndPairsSet", "Bool", "false", cw, "graph.compile not found"))
+		} else {
+			okCount, seen := 0, 0
+			ast.Inspect(comp.Body, func(n ast.Node) bool {
+				as, ok := n.(*ast.AssignStmt)
+				if !ok || len(as.Lhs) != 1 || len(as.Rhs) != 1 {
+					return true
+				}
+				l := exprString(as.Lhs[0])
+				if l != "outputPairs[START]" && l != "inputPairs[END]" {
+					return true
+				}
+				seen++
+				if se, ok := as.Rhs[0].(*ast.SelectorExpr); ok && exprString(se.X) == "r" {
+					name := se.Sel.Name
+					if (ghFields[name] && !runnerFields[name]) || (runnerFields[name] && assignedRunnerField(name)) {
+						okCount++
+					}
+				}
+				return true
+			})
+			if seen == 0 {
+				out = append(out, unknownFact("checkpointStartEndPairsSet", "Bool", "false", cw, "assignments to outputPairs[START] / inputPairs[END] not found"))
+			} else {
+				out = append(out, boolFact("checkpointStartEndPairsSet", okCount == seen && seen == 2,
+					cw+": outputPairs[START] / inputPairs[END] are set from fields that hold a stream convert pair (generic helper's, or a runner field that is assigned somewhere): "+c05Itoa(okCount)+" of "+c05Itoa(seen)))
+			}
+		}
+	}
+
 	// --- step counter restarts at 0 on resume: one loop `for step := 0` after both branches ---
 	if run != nil {
 		loop := c05MainLoop(run)
